@@ -1627,3 +1627,25 @@ Lemma gathered_example :
   field_of_name (read_skel (ds_gathered "lat lon")) "landpoint" = None /\
   field_of_name (read_skel (ds_gathered "nope lon")) "landpoint" = None.
 Proof. splits; vm_compute; reflexivity. Qed.
+
+(* fix4-2: a list variable whose compress attribute fails _check_compress is named in the report
+   of every variable that spans its dimension *)
+Lemma compress_missing_reported ds l c v :
+  In l (a_vars ds) -> compress_of l = Some c ->
+  fst (check_compress (a_dims ds) (split_ws c)) = false -> mem (v_name l) (v_dims v) = true ->
+  exists w r, In (v_name l, w, r) (compress_msgs ds v).
+Proof.
+  intros Hl Hc Hf Hm. unfold compress_msgs.
+  assert (E : exists w r, (match split_ws c with
+                           | [] => [(v_name l, WCompressAttr, RFormat)]
+                           | _ :: _ => [(v_name l, WCompress, RMissing)]
+                           end) = [(v_name l, w, r)]) by (destruct (split_ws c); eauto).
+  destruct E as (w & r & E). exists w, r. apply in_flat_map. exists l. split; [assumption|].
+  rewrite Hc, Hf, Hm, E. left; reflexivity.
+Qed.
+
+Lemma compress_reported_example :
+  option_map f_report (field_of_name (read_skel (ds_gathered "nope lon")) "gq") =
+    Some [("landpoint", WCompress, RMissing)] /\
+  option_map f_report (field_of_name (read_skel (ds_gathered "lat lon")) "gq") = Some [].
+Proof. split; vm_compute; reflexivity. Qed.
